@@ -132,8 +132,10 @@ class QModuleMixin(ABC):
                     self.weight_group_size = group_size
         self.activation_qtype = activations
         self.optimizer = optimizer
-        self.register_buffer("input_scale", torch.ones(()))
-        self.register_buffer("output_scale", torch.ones(()))
+        # The activation scales must have the same dtype as the module, like the quantized activations they produce
+        scale_dtype = None if self.weight is None else self.weight.dtype
+        self.register_buffer("input_scale", torch.ones((), dtype=scale_dtype))
+        self.register_buffer("output_scale", torch.ones((), dtype=scale_dtype))
 
     def _save_to_state_dict(self, destination, prefix, keep_vars):
         if self.weight is None:
